@@ -997,7 +997,12 @@ func (x *Exec) appendBuiltin(st *State, cc *ssa.CallCommon, args []Val) Val {
 	// append(nil, <empty>...) stays nil
 	isnil := And(sliceNil(s.T), Eq(n, IntLit(0)))
 	r := mk(sort, "mk_"+sort, arr, newLen, cp, isnil)
-	return Val{T: x.nameTerm(st, "appended", r), Typ: T}
+	// appending to a nil literal (or to a slice this function allocated) gives a backing array of its own
+	fresh := s.Fresh
+	if c, ok := cc.Args[0].(*ssa.Const); ok && c.IsNil() {
+		fresh = true
+	}
+	return Val{T: x.nameTerm(st, "appended", r), Typ: T, Fresh: fresh}
 }
 
 // constLen recognises a literal length term such as "(len_Sl (mk_Sl arr 2 2 false))".
